@@ -46,6 +46,9 @@ Theorem ps_refuses_clean : forall style f e, ps_hashin style f = Err e ->
 Proof. exact FmtPS.ProofsPS2.ps_refuses_clean. Qed.
 Theorem ps_hashin_no_panic : forall style f p, ps_hashin style f <> Panic p.
 Proof. exact FmtPS.ProofsPS2.ps_hashin_no_panic. Qed.
+(* C11: the verifier's scan (VerifyPowershell up to the PKCS#7 parser) never panics either, on any byte string *)
+Theorem ps_extract_no_panic : forall style f p, ps_extract style f <> Panic p.
+Proof. exact FmtPS.ProofsPS2.ps_extract_no_panic. Qed.
 Theorem ps_embed_refuses_clean : forall style f b e, ps_embed style f b = Err e ->
   ps_hashin style f = Err e \/ (e = E_COPY /\ spec_bom16 f = true /\ exists body, f = body ++ [10]).
 Proof. exact FmtPS.ProofsPS2.ps_embed_refuses_clean. Qed.
